@@ -372,6 +372,41 @@ func ComputeStateKeyWithWordAndMatch(nfaStates []nfa.StateID, isFromWord bool, i
 	return StateKey(h.Sum64())
 }
 
+// computeOrderedStateKey is the cache key used by the determinizer: like
+// ComputeStateKeyWithWordAndMatch, but over the states IN ORDER. The order of a DFA
+// state's NFA states is their priority order, and determinize cuts the list after the
+// first Match (leftmost-first), so [1,2,3] and [3,2,1] are different DFA states. With the
+// key of the sorted set, whichever order was cached first stood for both and a result
+// could depend on the searches that filled the cache before (`..`: SearchAt("--a")
+// returned 2 on a fresh cache and 3 after SearchAt("\xe2\x82\xac") on the same cache).
+func computeOrderedStateKey(nfaStates []nfa.StateID, isFromWord bool, isMatch bool) StateKey {
+	if len(nfaStates) == 0 {
+		return ComputeStateKeyWithWordAndMatch(nfaStates, isFromWord, isMatch)
+	}
+
+	h := fnv.New64a()
+
+	var flags byte
+	if isFromWord {
+		flags |= 1
+	}
+	if isMatch {
+		flags |= 2
+	}
+	_, _ = h.Write([]byte{flags})
+
+	for _, sid := range nfaStates {
+		_, _ = h.Write([]byte{
+			byte(sid),
+			byte(sid >> 8),
+			byte(sid >> 16),
+			byte(sid >> 24),
+		})
+	}
+
+	return StateKey(h.Sum64())
+}
+
 // sortStateIDs performs insertion sort on NFA state IDs.
 //
 // Insertion sort is used because:
